@@ -19,7 +19,11 @@ RULE = ("Hypothesis-generated scenarios (1-3 chromosomes, overlapping genes, GTF
         "/ exon ids) run once as baseline (.gtf, --complete_genedb, one BAM, fresh HOME) and once in a drawn equivalent "
         "representation: annotation form x complete/inferred x cache state, or a random partition of the records "
         "into 2-4 BAMs. Non-trivial = representation differs in >= 1 dimension and the annotation has >= 2 "
-        "overlapping genes or the partition splits reads of one gene; distinct by scenario hash.")
+        "overlapping genes or the partition splits reads of one gene; distinct by scenario hash. Stage history: 3-6 "
+        "runs sharing one HOME over two annotations of the same file name (B = A minus a transcript or gene), two "
+        "reused output folders, in-place swaps of the annotation files, --clean_start, .gtf/.gtf.gz; each run is "
+        "compared with a fresh-HOME run of the same content; non-trivial = some (file, form) is used twice without "
+        "--clean_start and the two annotations give different outputs.")
 ASSUMPTIONS = ["BAM partition: only read_assignments, corrected_reads and the ungrouped reference-based tables are "
                "compared, as multisets of lines (the statement's list); several files switch on file_name grouping",
                "--complete_genedb vs inferred is compared only for GTFs that contain gene and transcript records"]
@@ -159,6 +163,133 @@ def evaluate(case, ctx):
         base.cleanup()
 
 
+@st.composite
+def history_scenarios(draw):
+    """Histories of runs that share one HOME (conversion cache): two different annotations stored under the same file
+    name in two directories, two output folders that are reused with --force, in-place rewrites of an annotation
+    file, --clean_start, gzipped form.  Every run must give what a run with a fresh HOME gives for the same content."""
+    src = S.DrawSrc(draw)
+    sc = S.gen_discovery(src, n_chroms=(1, 2), genes_per_chrom=(1, 2), novel_per_gene=(0, 1), reads_known=(2, 4),
+                         reads_novel=(3, 4), intergenic_p=0.0, max_exons=4, exact=True)
+    sc.pop("truth", None)
+    lens = {c[0]: c[1] for c in sc["chroms"]}
+    sc["reads"] = [r for r in sc["reads"] if R.cigar_blocks(r["p"], r["cg"])[-1][1] + 45 < lens[r["c"]]]
+    sc["opts"] = ["--data_type", src.choice(["nanopore", "pacbio_ccs"]), "--no_gzip", "--threads", "1"]
+    # annotation B: annotation A without one transcript (or without one gene)
+    multi = [g["id"] for g in sc["genes"] if len(g["transcripts"]) >= 2]
+    if multi and src.bool(0.7):
+        gid = src.choice(multi)
+        g = [x for x in sc["genes"] if x["id"] == gid][0]
+        sc["drop"] = {"transcript": src.choice(g["transcripts"])["id"]}
+    else:
+        sc["drop"] = {"gene": src.choice(sc["genes"])["id"]} if len(sc["genes"]) >= 2 else \
+            {"transcript": sc["genes"][0]["transcripts"][0]["id"]}
+    steps = []
+    # the interesting histories come back to a (file, form, option) used before after something else happened to the
+    # cache entry or to the database file it points to: bias towards few distinct keys
+    for _ in range(src.int(3, 6)):
+        steps.append({"slot": src.choice(["v1", "v2"]), "out": src.choice(["X", "X", "X", "Y"]),
+                      "clean": src.bool(0.1), "form": src.choice(["gtf", "gtf", "gtf", "gtf.gz"]),
+                      "complete": src.bool(0.85), "swap": src.bool(0.15)})
+    sc["steps"] = steps
+    return sc
+
+
+def _variant_b(sc):
+    sb = copy.deepcopy(sc)
+    d = sc["drop"]
+    if "gene" in d:
+        sb["genes"] = [g for g in sb["genes"] if g["id"] != d["gene"]]
+    else:
+        for g in sb["genes"]:
+            g["transcripts"] = [t for t in g["transcripts"] if t["id"] != d["transcript"]]
+        sb["genes"] = [g for g in sb["genes"] if g["transcripts"]]
+    return sb
+
+
+def evaluate_history(case, ctx):
+    from vlib import run
+    sc = case
+    d = ctx.scratch()
+    try:
+        paths = build.materialise(sc, os.path.join(d, "in"))
+        sb = _variant_b(sc)
+        if not sb["genes"]:
+            return
+        text = {"A": open(paths["gtf"]).read()}
+        tmpb = os.path.join(d, "in", "b.gtf")
+        build.write_gtf(sb, tmpb)
+        text["B"] = open(tmpb).read()
+        slots = {"v1": "A", "v2": "B"}
+
+        def write_slot(slot):
+            sd = os.path.join(d, "in", slot)
+            os.makedirs(sd, exist_ok=True)
+            with open(os.path.join(sd, "annot.gtf"), "w") as f:
+                f.write(text[slots[slot]])
+            with gzip.open(os.path.join(sd, "annot.gtf.gz"), "wt") as f:
+                f.write(text[slots[slot]])
+        for sl in slots:
+            write_slot(sl)
+        common = ["--reference", paths["fasta"], "--bam"] + paths["bams"] + list(sc["opts"])
+        refs = {}
+        for content in ("A", "B"):
+            rd = os.path.join(d, "ref" + content)
+            os.makedirs(rd)
+            with open(os.path.join(rd, "annot.gtf"), "w") as f:
+                f.write(text[content])
+            ctx.pipeline_runs += 1
+            code = run.run_fork(common + ["--genedb", os.path.join(rd, "annot.gtf"), "--complete_genedb", "-o",
+                                          os.path.join(rd, "out")], os.path.join(rd, "home"), os.path.join(rd, "log"))
+            if code != 0:
+                ctx.note("reference_run_failed")
+                return
+            refs[content] = os.path.join(rd, "out")
+        distinguishable = bool(compare.diff_dirs(refs["A"], "OUT", refs["B"], "OUT"))
+        home = os.path.join(d, "home")
+        stale_possible = False
+        seen = set()
+        for i, st_ in enumerate(sc["steps"]):
+            if st_["swap"]:
+                slots["v1"], slots["v2"] = slots["v2"], slots["v1"]
+                for sl in slots:
+                    write_slot(sl)
+            content = slots[st_["slot"]]
+            genedb = os.path.join(d, "in", st_["slot"], "annot." + st_["form"])
+            out = os.path.join(d, "out" + st_["out"])
+            argv = common + ["--genedb", genedb, "-o", out, "--force"]
+            if st_["complete"]:
+                argv.append("--complete_genedb")
+            if st_["clean"]:
+                argv.append("--clean_start")
+            ctx.pipeline_runs += 1
+            log = os.path.join(d, "step%d.log" % i)
+            code = run.run_fork(argv, home, log)
+            key = (st_["slot"], st_["form"])
+            if key in seen and not st_["clean"]:
+                stale_possible = True
+            seen.add(key)
+            if code != 0:
+                r = pipeline.Result(d, code, out, paths, log)
+                ctx.violation("C12:history:run-fails:" + r.crash_signature().split("@")[0],
+                              {"step": i, "steps": sc["steps"], "log": r.log_tail(8)}, case)
+                return
+            for kind, f, det in compare.diff_dirs(refs[content], "OUT", out, "OUT"):
+                other = "B" if content == "A" else "A"
+                same_as_other = not compare.diff_dirs(refs[other], "OUT", out, "OUT", only={f})
+                ctx.violation("C12:history:cached-run-differs-from-fresh-run:%s%s" % (
+                    f, ":equals-the-other-annotation" if same_as_other and distinguishable else ""),
+                    {"step": i, "steps": sc["steps"][:i + 1], "content": content, "kind": kind, "file": f,
+                     "detail": det}, case)
+        ctx.cls("steps=%d" % len(sc["steps"]), "swap" if any(x["swap"] for x in sc["steps"]) else "no-swap")
+        if distinguishable and stale_possible:
+            ctx.mark_nontrivial(case_hash(case))
+            ctx.sample({"steps": sc["steps"], "drop": sc["drop"], "n_genes": len(sc["genes"])}, limit=2)
+    finally:
+        shutil.rmtree(d, ignore_errors=True)
+
+
 def stages(tier):
     q = tier == "quick"
-    return [Stage("representations", "hyp", evaluate, n=160 if q else 2000, strategy=scenarios)]
+    return [Stage("representations", "hyp", evaluate, n=160 if q else 2000, strategy=scenarios),
+            Stage("history", "hyp", evaluate_history, n=64 if q else 1000, strategy=history_scenarios)]
